@@ -92,7 +92,7 @@ fn base_shape(n: usize, name_mode: usize, fds: usize) -> Shape {
         let nm: Option<Vec<u8>> = match name_mode {
             0 => Some(format!("thr{i}").into_bytes()),
             1 => if i == 0 { Some(b"\xff\xfe".to_vec()) } else { Some(format!("thr{i}").into_bytes()) },
-            2 => if i % 2 == 1 { Some(b"\xffodd".to_vec()) } else { Some(format!("t{i}").into_bytes()) },
+            2 => if i % 2 == 1 { Some(b"\xffodd".to_vec()) } else if i % 4 == 0 { Some("n\u{e9}\u{1f980}".as_bytes().to_vec()) } else { Some(format!("t{i}\u{20ac}").into_bytes()) },
             _ => Some(b"\xfe".to_vec()),
         };
         s.names.push(nm);
@@ -100,6 +100,11 @@ fn base_shape(n: usize, name_mode: usize, fds: usize) -> Shape {
     s.patterns.push((4, "hole".into(), "rw".into()));
     s.dlopen.push(format!("{FIX}/libfix_sha1.so").into_bytes());
     s.files.push((format!("{FIX}/plain.bin").into_bytes(), 0, 8192, "r".into()));
+    if name_mode >= 2 {
+        // non-ASCII names everywhere a string is stored: module path, handle target
+        s.dlopen.push(format!("{FIX}/libnonascii_\u{e9}.so").into_bytes());
+        s.fds.push(("file".into(), format!("{FIX}/plain_\u{fc}_\u{1f600}.bin").into_bytes()));
+    }
     for k in 0..fds {
         match k % 4 {
             0 => s.fds.push(("devnull".into(), vec![])),
